@@ -35,7 +35,7 @@ func TestC12XSmoke(t *testing.T) {
 			}
 		}
 	}
-	if bad > 0 {
-		t.Logf("%d messages do not succeed for the owner", bad)
+	if bad > 0 || len(x.Notes) > 0 || !x.HasE {
+		t.Fatalf("%d messages do not succeed with an effect for the named owner; fixture notes %v; shutdown state %v", bad, x.Notes, x.HasE)
 	}
 }
